@@ -261,6 +261,7 @@ pub fn run(mut run: Run) -> i32 {
                         && mls.simplify_vw_preserve(e) == MultiLineString(vec![l1.simplify_vw_preserve(e), l2.simplify_vw_preserve(e)])
                         && mpg.simplify(e) == MultiPolygon(vec![pg.simplify(e), pg.simplify(e)])
                         && mpg.simplify_vw(e) == MultiPolygon(vec![pg.simplify_vw(e), pg.simplify_vw(e)])
+                        && mpg.simplify_vw_preserve(e) == MultiPolygon(vec![pg.simplify_vw_preserve(e), pg.simplify_vw_preserve(e)])
                 });
                 if ok != Ok(true) {
                     acc.viol("Multi* simplification differs from member-wise simplification".into(), idx, || json!({"ring": format!("{:?}", inp), "epsilon": e, "result": format!("{:?}", ok)}));
